@@ -88,13 +88,13 @@ theorem ackInv_respond (sys : Sys) (ha : AckInv sys) (z : SideId) (hz : (sys.sid
 
 /-! ## a segment arrives at a side that has a TCB -/
 
-theorem ackInv_arrive_tcb (sys : Sys) (hi : Inv sys) (hs : SysInv sys) (ha : AckInv sys) (hroom : RoomOk sys)
+/-- both TCBs exist: what `segmentArrives_ack` yields for the receiving TCB `u` -/
+theorem arrive_both (sys : Sys) (hi : Inv sys) (hs : SysInv sys) (ha : AckInv sys) (hroom : RoomOk sys)
     (z : SideId) (u u' : Tcb) (σ : Segment)
     (hu : (sys.side z).tcb = some u) (hσ : σ ∈ sys.history) (hsrc : σ.hdr.srcPort = z.peer.port)
-    (e : u.segmentArrives σ = .ok (u', .Ok)) (sd' : Side) (hsd : sd'.tcb = some u')
-    (hl : sd'.listen = (sys.side z).listen) : AckInv (sys.setSide z sd') := by
-  have k := segmentArrives_snd u σ u' .Ok e
-  have hsub := segmentArrives_heap_sub u σ u' .Ok e
+    (e : u.segmentArrives σ = .ok (u', .Ok)) (t : Tcb) (ht : (sys.side z.peer).tcb = some t) :
+    AStep t.snd.iss t.sent False (fun v => 1 ≤ off u.snd.iss v ∧ off u.snd.iss v ≤ top u.snd.iss t) u u' ∧
+      AckRcv u.snd.iss (top u.snd.iss t) u' := by
   have huz : (sys.side z.peer.peer).tcb = some u := by rw [SideId.peer_peer]; exact hu
   have hAz := ha z
   have hAp := ha z.peer
@@ -104,22 +104,60 @@ theorem ackInv_arrive_tcb (sys : Sys) (hi : Inv sys) (hs : SysInv sys) (ha : Ack
   have hroomu : u.sent < 2147483648 := by
     have := hroom z u hu
     unfold Room at this; omega
-  -- both TCBs exist: `segment_arrives_ack`
-  have key : ∀ t, (sys.side z.peer).tcb = some t →
-      AStep t.snd.iss t.sent False (fun v => 1 ≤ off u.snd.iss v ∧ off u.snd.iss v ≤ top u.snd.iss t) u u' ∧
-        AckRcv u.snd.iss (top u.snd.iss t) u' := by
-    intro t ht
-    have hN : t.sent < 2147483648 := by
-      have := hroom z.peer t ht
-      unfold Room at this; omega
-    obtain ⟨r1, r2⟩ := (hi.link z.peer).rcv t u ht huz
-    have r3 := ((hi.link z).rcv u t hu ht).1
-    have hr : AckRcv u.snd.iss (top u.snd.iss t) u :=
-      ⟨(hs z u hu).fresh, hAz.rcvd u t rfl ht, rfl, hAz.una u t rfl ht, top_le r3, hroomu⟩
-    obtain ⟨a, _, hr'⟩ := segmentArrives_ack u σ u' e t.snd.iss t.sent hN r1 (hAp.q t u ht rfl).pos
-      ((hi.link z.peer).hist t ht σ hσ hsrc) r2 u.snd.iss (top u.snd.iss t) hr
-      (hAz.hist u t rfl ht σ hσ hsrc) (hAz.heap u t rfl ht)
-    exact ⟨a, hr'⟩
+  have hN : t.sent < 2147483648 := by
+    have := hroom z.peer t ht
+    unfold Room at this; omega
+  obtain ⟨r1, r2⟩ := (hi.link z.peer).rcv t u ht huz
+  have r3 := ((hi.link z).rcv u t hu ht).1
+  have hr : AckRcv u.snd.iss (top u.snd.iss t) u :=
+    ⟨(hs z u hu).fresh, hAz.rcvd u t rfl ht, rfl, hAz.una u t rfl ht, top_le r3, hroomu⟩
+  obtain ⟨a, _, hr'⟩ := segmentArrives_ack u σ u' e t.snd.iss t.sent hN r1 (hAp.q t u ht rfl).pos
+    ((hi.link z.peer).hist t ht σ hσ hsrc) r2 u.snd.iss (top u.snd.iss t) hr
+    (hAz.hist u t rfl ht σ hσ hsrc) (hAz.heap u t rfl ht)
+  exact ⟨a, hr'⟩
+
+/-- the peer only listens: the receiving TCB `u` is in SYN-SENT and stays there -/
+theorem arrive_listening (sys : Sys) (hi : Inv sys) (hs : SysInv sys) (ha : AckInv sys) (hroom : RoomOk sys)
+    (z : SideId) (u u' : Tcb) (σ : Segment)
+    (hu : (sys.side z).tcb = some u) (hσ : σ ∈ sys.history) (hsrc : σ.hdr.srcPort = z.peer.port)
+    (e : u.segmentArrives σ = .ok (u', .Ok)) (ht : (sys.side z.peer).tcb = none)
+    (hlis : (sys.side z.peer).listen.isSome = true) :
+    AStep 0 0 False (fun v => 1 ≤ off u.snd.iss v ∧ off u.snd.iss v ≤ 0) u u' ∧ AckRcv u.snd.iss 0 u' ∧
+      u.state = .SynSent ∧ u'.state = .SynSent := by
+  have huz : (sys.side z.peer.peer).tcb = some u := by rw [SideId.peer_peer]; exact hu
+  have hAz := ha z
+  unfold AckLink at hAz
+  rw [hu, ht, hlis] at hAz
+  have hroomu : u.sent < 2147483648 := by
+    have := hroom z u hu
+    unfold Room at this; omega
+  obtain ⟨f1, f2⟩ := hAz.fresh u rfl rfl rfl
+  obtain ⟨g1, g2⟩ := (hi.link z.peer).fresh ht hlis
+  obtain ⟨hst, g3⟩ := g2 u huz
+  have hσ0 := g1 σ hσ hsrc
+  have hst' : u'.state = .SynSent :=
+    segmentArrives_synsent_stays u σ u' e hst hσ0.2 (fun x hx => (g3 x hx).2)
+  have hr : AckRcv u.snd.iss 0 u :=
+    ⟨(hs z u hu).fresh, fun h => (by rw [hst] at h; cases h), rfl, (by rw [f2.una, off_self]; exact Nat.le_refl _),
+      Nat.zero_le _, hroomu⟩
+  obtain ⟨a, _, hr'⟩ := segmentArrives_ack u σ u' e 0 0 (by omega) (fun hne => absurd hst hne)
+    (fun hne => absurd hst hne) (segBelow_of_empty _ _ _ hσ0) (fun x hx => segBelow_of_empty _ _ _ (g3 x hx))
+    u.snd.iss 0 hr (ackLe_of_noack (f1 σ hσ)) (fun x hx => ackLe_of_noack (f2.heap x hx))
+  exact ⟨a, hr', hst, hst'⟩
+
+theorem ackInv_arrive_tcb (sys : Sys) (hi : Inv sys) (hs : SysInv sys) (ha : AckInv sys) (hroom : RoomOk sys)
+    (z : SideId) (u u' : Tcb) (σ : Segment)
+    (hu : (sys.side z).tcb = some u) (hσ : σ ∈ sys.history) (hsrc : σ.hdr.srcPort = z.peer.port)
+    (e : u.segmentArrives σ = .ok (u', .Ok)) (sd' : Side) (hsd : sd'.tcb = some u')
+    (hl : sd'.listen = (sys.side z).listen) : AckInv (sys.setSide z sd') := by
+  have k := segmentArrives_snd u σ u' .Ok e
+  have hsub := segmentArrives_heap_sub u σ u' .Ok e
+  have hAz := ha z
+  have hAp := ha z.peer
+  unfold AckLink at hAz hAp
+  rw [SideId.peer_peer] at hAp
+  rw [hu] at hAz hAp
+  have key := arrive_both sys hi hs ha hroom z u u' σ hu hσ hsrc e
   intro x
   rcases side_cases z x with hx | hx <;> subst x
   · -- the receiving side as receiver of ACKs
@@ -136,17 +174,7 @@ theorem ackInv_arrive_tcb (sys : Sys) (hi : Inv sys) (hs : SysInv sys) (ha : Ack
       | true =>
         rw [hlis] at hAz
         obtain ⟨f1, f2⟩ := hAz.fresh u rfl rfl rfl
-        obtain ⟨g1, g2⟩ := (hi.link z.peer).fresh ht hlis
-        obtain ⟨hst, g3⟩ := g2 u huz
-        have hσ0 := g1 σ hσ hsrc
-        have hst' : u'.state = .SynSent :=
-          segmentArrives_synsent_stays u σ u' e hst hσ0.2 (fun x hx => (g3 x hx).2)
-        have hr : AckRcv u.snd.iss 0 u :=
-          ⟨(hs z u hu).fresh, fun h => (by rw [hst] at h; cases h), rfl, (by rw [f2.una, off_self]; exact Nat.le_refl _),
-            Nat.zero_le _, hroomu⟩
-        obtain ⟨a, _, hr'⟩ := segmentArrives_ack u σ u' e 0 0 (by omega) (fun hne => absurd hst hne)
-          (fun hne => absurd hst hne) (segBelow_of_empty _ _ _ hσ0) (fun x hx => segBelow_of_empty _ _ _ (g3 x hx))
-          u.snd.iss 0 hr (ackLe_of_noack (f1 σ hσ)) (fun x hx => ackLe_of_noack (f2.heap x hx))
+        obtain ⟨a, hr', _, hst'⟩ := arrive_listening sys hi hs ha hroom z u u' σ hu hσ hsrc e ht hlis
         refine hAz.arrive_fresh ⟨fun x hx => ?_, fun tr hx => ?_, fun x hx => ?_, ?_⟩
         · rcases a.q.one x hx with e1 | e1
           · exact f2.one x e1
